@@ -61,20 +61,18 @@ let keq (a : key) (b : key) : bool = kid arrhash a b
 let dstr k = match Hashtbl.find_opt udstr (show_key k) with Some s -> s | None -> "?" ^ show_key k
 let djson k = match Hashtbl.find_opt udjson (show_key k) with Some s -> s | None -> "?" ^ show_key k
 
-(* values: integers, or the special values N nil, F false, E "", L [] (codes below -1000000 in the
-   model, where a value is an opaque Z); their spelling inside str/json comes with the header *)
+(* values: integers, or the special values N nil, F false, E "", L [], c 'a', f 97.0, h g two hashes,
+   a b two arrays [1] (codes below -1000000 in the model, where a value is an opaque Z); their spelling inside str/json comes with the header *)
 let vstr : (string, string) Hashtbl.t = Hashtbl.create 8
 let vjson : (string, string) Hashtbl.t = Hashtbl.create 8
-let specials = ["N"; "F"; "E"; "L"]
+let specials = ["N"; "F"; "E"; "L"; "c"; "f"; "h"; "g"; "a"; "b"]
+let rec index_of x l i = match l with [] -> -1 | y :: r -> if x = y then i else index_of x r (i + 1)
 let z_of_value (s : string) : z =
-  match s with
-  | "N" -> z_of_int (-1000001) | "F" -> z_of_int (-1000002) | "E" -> z_of_int (-1000003) | "L" -> z_of_int (-1000004)
-  | _ -> z_of_string s
+  let i = index_of s specials 0 in
+  if i >= 0 then z_of_int (-1000001 - i) else z_of_string s
 let show_value (v : z) : string =
-  let s = string_of_z v in
-  match s with
-  | "-1000001" -> "N" | "-1000002" -> "F" | "-1000003" -> "E" | "-1000004" -> "L"
-  | _ -> s
+  let n = int_of_z v in
+  if n <= -1000001 && n > -1000001 - List.length specials then List.nth specials (-1000001 - n) else string_of_z v
 let value_in tbl (v : z) : string =
   let s = show_value v in
   if List.mem s specials then (match Hashtbl.find_opt tbl s with Some t -> t | None -> "?" ^ s) else s
